@@ -128,6 +128,7 @@ class _StateOb(Ob):
 
 class CtorEstablishesInv(_StateOb):
     name = 'CellVariable.__init__/establishes_Inv'
+    props = ('C09', 'C03')
     style = 'bc-passed'
 
     def setup(self, w):
@@ -226,6 +227,7 @@ def _mk_state_classes():
 
         class ApplyBCs(_StateOb):
             name = 'CellVariable.apply_BCs/establishes_Inv{%s}' % pre
+            props = ('C09', 'C03')
 
             def setup(self, w, pre=pre):
                 cv = make_prestate(w, 'phi0', pre)
@@ -249,7 +251,7 @@ def _mk_state_classes():
             """solvePDE from this pre-state hands the solver the system a fresh variable (same interior, same BCs)
             would: boundary rows of the CURRENT BCs + terms; afterwards Inv holds"""
             name = 'solvePDE/from_state_equals_fresh{%s}' % pre
-            props = ('C09', 'C04')
+            props = ('C09', 'C04', 'C03')
 
             def parts(self, w):
                 return ['rows', 'flags'] + [(a, s) for a in range(w.nd) for s in (0, 1)]
@@ -305,7 +307,7 @@ def _mk_state_classes():
             """solveExplicitPDE from this pre-state: the result satisfies Inv with the (shared) BCs, owns a cached
             boundary term (so solvePDE can use it), and the input is left in an Inv state"""
             name = 'solveExplicitPDE/from_state{%s}' % pre
-            props = ('C09', 'C12')
+            props = ('C09', 'C12', 'C03')
 
             def setup(self, w, pre=pre):
                 cv = make_prestate(w, 'phi0', pre)
